@@ -5,7 +5,7 @@ import ast
 
 from fractions import Fraction
 
-from ..consteval import ConstEval, FuncEval, NotConst, _CallingConstEval
+from ..consteval import ConstEval, FuncEval, NotConst, Raised, _CallingConstEval
 from ..core import parent, AnalysisError, own_nodes, short, unparse
 from ..rules import match, dsp, live, shape
 from . import common
